@@ -26,8 +26,57 @@ TIERS = {
 }
 
 
+def gen_large(rng):
+    """Sizes well beyond the small cases: deep trees, many Fenwick levels, long histories; audited sparsely."""
+    if rng.random() < 0.5:
+        n = rng.choice([64, 100, 257, 500])
+        ops = []
+        perm = list(range(n))
+        rng.shuffle(perm)
+        level = perm
+        while len(level) > 1 and len(ops) < 400:  # tournament: rank log2 n
+            nxt = []
+            for i in range(0, len(level) - 1, 2):
+                a, b = level[i], level[i + 1]
+                if rng.random() < 0.5:
+                    a, b = b, a
+                ops.append(["union", a, b])
+                nxt.append(rng.choice([a, b]))
+            if len(level) % 2:
+                nxt.append(level[-1])
+            level = nxt
+        for _ in range(rng.randrange(20, 120)):
+            x = rng.random()
+            if x < 0.4:
+                ops.append(["union", rng.randrange(n), rng.randrange(n)])
+            elif x < 0.7:
+                ops.append(["find", rng.randrange(n)])
+            elif x < 0.9:
+                ops.append(["connected", rng.randrange(n), rng.randrange(n)])
+            else:
+                ops.append([rng.choice(["component_count", "component_sizes", "get_components"])])
+        rng.shuffle(ops) if rng.random() < 0.3 else None
+        return {"kind": "uf", "n": n, "ops": ops, "sparse_audit": True}
+    n = rng.choice([63, 64, 65, 127, 128, 129, 300, 1000])
+    init = [rng.randrange(-9, 10) for _ in range(n)]
+    ops = []
+    for _ in range(rng.randrange(50, 300)):
+        x = rng.random()
+        i = rng.choice([0, n - 1, n // 2, rng.randrange(n)])
+        if x < 0.4:
+            ops.append(["update", i, rng.randrange(-9, 10)])
+        elif x < 0.7:
+            ops.append(["prefix", i])
+        else:
+            j = rng.randrange(n)
+            ops.append(["range_sum", min(i, j), max(i, j)])
+    return {"kind": "fw", "init": init, "ops": ops, "sparse_audit": True}
+
+
 def generate(rng, tier):
     big = tier == "thorough"
+    if rng.random() < 0.03:
+        return gen_large(rng)
     if rng.random() < 0.5:
         n = rng.choice([0, 1, 2, 3, 4, 5, 6, 8, 12, 16] + ([24, 33] if big else []))
         ops = []
@@ -120,7 +169,19 @@ def _audit_uf(o: Outcome, uf, labels, step):
         if c.find(roots[i]) != roots[i]:
             o.violate(PROP, "refinement_broken", f"step {step}: find not idempotent at {i}", target="UnionFind")
             return
-    for i in range(n):
+    if n > 40:
+        # exact and linear: roots and model labels must be in bijection (every pair then agrees); connected() is spot-checked
+        r2l, l2r = {}, {}
+        for i in range(n):
+            if r2l.setdefault(roots[i], labels[i]) != labels[i] or l2r.setdefault(labels[i], roots[i]) != roots[i]:
+                o.violate(PROP, "refinement_broken", f"step {step}: find() puts {i} in the wrong class (root {roots[i]})", target="UnionFind")
+                return
+        for i in range(0, n, 7):
+            j = (i * 31 + 5) % n
+            if c.connected(i, j) != (labels[i] == labels[j]):
+                o.violate(PROP, "refinement_broken", f"step {step}: connected({i},{j}) != model {labels[i] == labels[j]}", target="UnionFind")
+                return
+    for i in range(n if n <= 40 else 0):
         for j in range(n):
             same = labels[i] == labels[j]
             if (roots[i] == roots[j]) != same:
@@ -200,7 +261,8 @@ def _exec_uf(case, o: Outcome):
         o.trace.append([name, repr(got)])
         if o.violations:
             return
-        _audit_uf(o, uf, labels, step)
+        if not case.get("sparse_audit") or step == len(case["ops"]) - 1 or step % 97 == 96:
+            _audit_uf(o, uf, labels, step)
         if o.violations:
             return
     o.steps = len(case["ops"])
@@ -228,8 +290,9 @@ def _exec_fw(case, o: Outcome):
             if c.prefix(i) != acc:
                 o.violate(PROP, "refinement_broken", f"step {step}: prefix({i})={c.prefix(i)!r}, model {acc!r}", target="FenwickTree")
                 return
-        for l in range(n):
-            for r in range(l, n):
+        pairs = [(l, r) for l in range(n) for r in range(l, n)] if n <= 40 else \
+            [(l, min(n - 1, l + (l * 13) % 50)) for l in range(0, n, 3)] + [(0, n - 1), (n - 1, n - 1)]
+        for l, r in pairs:
                 if c.range_sum(l, r) != sum(model[l:r + 1]):
                     o.violate(PROP, "refinement_broken", f"step {step}: range_sum({l},{r})={c.range_sum(l, r)!r}, model {sum(model[l:r+1])!r}", target="FenwickTree")
                     return
@@ -290,7 +353,10 @@ def _exec_fw(case, o: Outcome):
         o.trace.append([name, repr(got)])
         if o.violations:
             return
-        if name == "second_tree" or step % 4 == 3 or step == len(case["ops"]) - 1:
+        if case.get("sparse_audit"):
+            if step == len(case["ops"]) - 1 or step % 61 == 60:
+                audit(step)
+        elif name == "second_tree" or step % 4 == 3 or step == len(case["ops"]) - 1:
             audit(step)
             if o.violations:
                 return
